@@ -414,7 +414,10 @@ pub fn default_caps() -> Vec<Vec<u8>> {
          refsrv::cap(9, &[0, 0, 0, 0])]
 }
 
-fn strings() -> Vec<&'static str> { vec!["", "a", "user", "Administrator", "élève", "名前", "😀user", "ßtraße-long-name-ü", "0123456789abcdef", "0123456789abcdefXYZ", "éééééééééééééééé", "😀😀😀😀😀😀😀😀", "a b c"] }
+fn strings() -> Vec<&'static str> { vec!["", "a", "user", "Administrator", "élève", "名前", "😀user", "ßtraße-long-name-ü", "0123456789abcdef", "0123456789abcdefXYZ", "éééééééééééééééé", "😀😀😀😀😀😀😀😀", "a b c",
+    // up to 64 code points: 26 / 27 / 37 / 64 units, 32 surrogate pairs, 64 two-byte letters
+    "abcdefghijklmnopqrstuvwxyz", "abcdefghijklmnopqrstuvwxyz0", "corp-domain-with-a-long-name.example.", "0123456789012345678901234567890123456789012345678901234567890123",
+    "😀😀😀😀😀😀😀😀😀😀😀😀😀😀😀😀😀😀😀😀😀😀😀😀😀😀😀😀😀😀😀😀", "éééééééééééééééééééééééééééééééééééééééééééééééééééééééééééééééé"] }
 
 pub fn generate(prop: &str, thorough: bool, seed: u64, part: (usize, usize), em: &mut Emitter) {
     let mut r = Rng::new(seed ^ 0xC17C03);
@@ -455,5 +458,15 @@ pub fn generate(prop: &str, thorough: bool, seed: u64, part: (usize, usize), em:
             caps, source: r.bytes(nsrc), chal_flags: 0x62898235 | if r.chance(1, 2) { 0x02000000 } else { 0 }, inputs, script: vec![], reactivate: match r.below(5) { 0 | 1 => Some(r.next() as u32), 2 => Some(0), _ => None }, reuse: if i % 7 == 3 { 1 } else if i % 7 == 5 { 2 } else { 0 }, jrefuse: if i % 11 == 4 { 1 + (i / 11 % 3) as u8 } else { 0 }, ber: if i % 5 == 2 { 1 + (i / 5 % 2) as u8 } else { 0 } };
         let run = emit(em, &c, &s);
         if prop == "C04" { emit_strict(em, &run, &mut seen); }
+    }
+    // C04: tokens of a second exchange on a used Ntlm object whose first server made the opposite UNICODE
+    // choice: names and credentials are encoded as the flags of *this* exchange say
+    if prop == "C04" && part.0 == 0 {
+        for (k, fl) in [0x62898235u32, 0x62898234, 0x60898235, 0x60898234].iter().enumerate() {
+            let mut ti = crate::props::c15::av(2, &crate::props::c15::utf16("D")); ti.extend(crate::props::c15::av(7, &r.bytes(8))); ti.extend(crate::props::c15::av(0, &[]));
+            let scv = r.bytes(8); let mut sc = [0u8; 8]; sc.copy_from_slice(&scv);
+            let c = crate::props::c01::Case { dom: "DOM".into(), user: "user".into(), pw: "pässwörd".into(), from_hash: false, ra: false, id: 1 + k % 2, flags: *fl, sc, ti, reply: "honest".into(), reply1: "honest".into(), pre: "flip".into() };
+            crate::props::c01::run(em, &c);
+        }
     }
 }
